@@ -1,8 +1,9 @@
 (* Prop_C06.v — property C06 (soil water content stays within physical bounds), stated about
    WaterModel / the groundwater field-capacity model read over the reals.  Only statements here. *)
 From Coq Require Import ZArith Reals List Bool PrimFloat.
-From Hermes Require Import Num RUtil WaterModel WaterProofs WaterBounds.
+From Hermes Require Import Num RUtil WaterModel WaterProofs WaterBounds WaterDayBounds.
 Local Open Scope R_scope.
+Set Warnings "-inexact-float".
 
 (* upper bound, every sub-step, every layer: at most field capacity plus the capillary-rise term the
    sub-step applied to that layer (the overflow cascade precedes the capillary addition) *)
@@ -52,7 +53,34 @@ Theorem C06_upper_bound_binary64 : forall (ls : list (PrimFloat.float * PrimFloa
           (fst (@cascade PrimFloat.float FloatNum carry hc ls q1s)) ls.
 Proof. exact cascade_upper_binary64. Qed.
 
+(* the WHOLE DAY on days without net evaporation (FLUSS0 >= 0), any number of sub-steps: a layer that starts the day at
+   or above its dryness limit ends EVERY sub-step at or above it.  The uptake clamp acts on sub-step 1 only; the
+   induction carries "storage >= limit + clamped uptake still to come".  Hypothesis on the parameters: the clamped
+   uptake of the day, less one sub-step, fits between field capacity and the dryness limit (observed on every traced day) *)
+Theorem C06_lower_bound_day_nonevap : forall (x : water_in (T:=R)) (n k : nat),
+  wf_in x n -> params_ok x -> 0 <= wi_fluss0 x -> wi_subd1 x = true ->
+  INR (S k) * wi_wdt x <= 1 ->
+  Forall (fun wmin => 0 <= wmin) (wi_wmin x) ->
+  Forall (fun tp => 0 <= tp) (wi_tp x) ->
+  Forall2 (fun wg0 wmin => wmin / 3 <= wg0) (wi_wg0 x) (wi_wmin x) ->
+  (forall i, (i < n)%nat ->
+     nth i (wo_tp (water_step x)) 0 * (1 - wi_wdt x) <= (nth i (wi_w x) 0 - nth i (wi_wmin x) 0 / 3) * 10) ->
+  Forall (fun o => forall i, (i < n)%nat -> nth i (wi_wmin x) 0 / 3 <= get 0 (wo_wg1 o) i) (water_iter (S k) x).
+Proof. exact day_lower_nonevap_lemma. Qed.
+
+(* days WITH net evaporation: for a freely chosen evaporation profile the day-level bound is false (binary64, the
+   semantics the code runs; the same input is replayed on the real kernel on every run).  Evatra's own profile
+   (shares proportional to the water above the limit) is checked on every traced day and in a directed search. *)
+Theorem C06_lower_bound_day_evap_refuted :
+  PrimFloat.leb (0.003 / 3)%float 0.0035%float = true /\
+  PrimFloat.leb (0.3 + 0.253 + 0.044)%float 0.6%float = true /\
+  PrimFloat.leb (0.003 / 3)%float (third_layer_after 1) = true /\
+  PrimFloat.ltb (third_layer_after 2) (0.003 / 3)%float = true.
+Proof. exact evap_day_refuted_lemma. Qed.
+
 Print Assumptions C06_upper_bound.
+Print Assumptions C06_lower_bound_day_nonevap.
+Print Assumptions C06_lower_bound_day_evap_refuted.
 Print Assumptions C06_upper_bound_binary64.
 Print Assumptions C06_lower_bound_substep.
 Print Assumptions C06_uptake_keeps_limit.
